@@ -412,10 +412,27 @@ def frac_variants(rng):
             yield digits, v * 10 ** (9 - digits)
 
 
+def probe_duration_seconds_float():
+    """Known finding: XmlDuration keeps the seconds as a float; with 8+ integer digits the nanoseconds are lost.
+    Counterfactual: the same fraction with few integer digits is exact."""
+    from xsdata.models.datatype import XmlDuration
+
+    big = XmlDuration("PT100000000.000000001S").seconds
+    small = XmlDuration("PT1.000000001S").seconds
+    return big == 100000000.0 and small == 1.000000001
+
+
 def run_shard(ctx):
     install_hooks(ctx)
     rng = ctx.rng
     i = 0
+    if ctx.shard == 0:
+        ctx.evals()
+        try:
+            if probe_duration_seconds_float():
+                ctx.known_finding("C06/duration-seconds-kept-as-float")
+        except Exception as e:  # noqa: BLE001
+            ctx.inconc(f"probe failed to run: {type(e).__name__}: {e}")
 
     # A. (year, month, day) table for date / dateTime / gYearMonth / gMonthDay / gMonth / gDay / gYear
     for y in YEARS:
